@@ -221,6 +221,7 @@ def setup():
     if hits:
         log("forbidden vernacular found:\n" + "\n".join(hits))
         return 2
+    modelrun.build_extracted()
     log(f"setup ok: full .vo build of coq/ in {time.time() - t0:.0f} s; no Admitted/Axiom/Parameter/... in the development")
     return 0
 
